@@ -1,0 +1,9 @@
+//go:build !verif
+
+package graphql
+
+// No-op twins of the instrumentation in verif_on.go.
+
+func verifEvent(ev string, args ...interface{}) {}
+
+func verifCount(k int) {}
